@@ -113,7 +113,7 @@ def run(shard, ctx):
             cases = [DO.GEN[c.custom](rng)[0] for _ in range(shard["n"])]
         else:
             cases = list(harness.walking_cases(c, rng, small=shard["n"] < 1000)) + list(harness.flag_cases(c, rng)) + [
-                harness.random_args(c, rng) for _ in range(shard["n"])]
+                harness.random_args(c, rng) for _ in range(shard["n"])] + list(harness.novel_products(c, rng))
         for a in cases:
             del captured[:]
             try:
